@@ -33,7 +33,7 @@ ENGINES = {
 
 PROP = {
     "engines": ["reopen"],
-    "lean_modules": ["AxVerif.Model.Db", "AxVerif.Model.Reopen", "AxVerif.Lemmas.Reopen", "AxVerif.Driver.Reopen"],
+    "lean_modules": ["AxVerif.Model.Db", "AxVerif.Model.Config", "AxVerif.Model.Reopen", "AxVerif.Lemmas.Reopen", "AxVerif.Driver.Reopen"],
     "rule": "one case = creation-time configuration (page size ∈ {4,8,16,64} KiB, cache ∈ {64,512,10000}, pool, min keys, siblings) + a "
             "history cut by 1–4 `reopen` ops (close by drop / flush+drop / drop with leaked open sessions; a different configuration "
             "passed to every open): DDL (tables with and without UNIQUE / NOT NULL, DROP TABLE, re-CREATE of a dropped name), autocommit "
